@@ -3,6 +3,7 @@ import os
 
 from harness import common
 from harness import gen
+from harness import proggen
 from harness import semrun
 
 PROP = 'C01'
@@ -16,10 +17,22 @@ def Cases(tier):
     prog, query, feats = gen.Generate(rng, gen.CORE)
     cases.append({'id': 'g%d' % i, 'prog': prog, 'query': query,
                   'meta': {'features': feats, 'source': 'random'}})
-  return cases + semrun.Reproducers(PROP)
+  # spec -> code: programs enumerated by TLC from spec/ProgGen.tla
+  if tier == 'quick':
+    pg, st, gen_, total = proggen.Cases('ProgGen_core_q.cfg', 250, rng, 'pg')
+  else:
+    pg, st, gen_, total = proggen.Cases('ProgGen_core_q.cfg', None, rng, 'pg')
+    pg2, st2, gen2, total2 = proggen.Cases('ProgGen_core_t.cfg', 4000, rng, 'pgt')
+    pg, st, gen_, total = pg + pg2, st + st2, gen_ + gen2, total + total2
+  EXTRA.update(proggen_states=st, proggen_transitions=gen_,
+               proggen_programs_enumerated=total, proggen_replayed=len(pg))
+  return cases + pg + semrun.Reproducers(PROP)
 
 
-REQUIRED = ['join', 'disjunction', 'dup_fact', 'arith', 'assign', 'inc_bind',
+EXTRA = {}
+
+REQUIRED = ['proggen', 'pg_disjunction', 'pg_in', 'pg_assign', 'pg_dup_fact',
+            'join', 'disjunction', 'dup_fact', 'arith', 'assign', 'inc_bind',
             'if', 'list', 'record', 'pcall', 'inline', 'multi_rule', 'cmp']
 
 
@@ -29,7 +42,8 @@ def Run(tier):
       rule='random well-typed range-restricted core-fragment programs (harness/gen.py profile CORE, seed VERIF_SEED); each defined predicate is compiled and executed on SQLite by the real pipeline and TLC decides observed rows = LSem!Den as bags with the column names',
       assumptions=['spec/LSem.tla + LValues.tla encode docs/learn/logica.md',
                    'harness/ir.py renderer is trusted',
-                   'fragment exclusions of harness/gen.py (R2 of DESIGN.md)'])
+                   'fragment exclusions of harness/gen.py (R2 of DESIGN.md)'],
+      extra_coverage=EXTRA)
 
 
 def Replay(path):
